@@ -1,27 +1,31 @@
 #!/bin/bash
 # Runs every hand-written and seeded patch against the check of its property and
-# reports CAUGHT / MISSED. usage: regress_mutants.sh [secs-per-patch]
-SECS="${1:-12}"
+# reports CAUGHT / MISSED, and every benign patch, which must stay QUIET.
+# usage: regress_mutants.sh [secs-per-patch] [parallel jobs] [workers per job]
+SECS="${1:-12}"; JOBS="${2:-4}"; export VERIF_WORKERS="${3:-4}"
 VROOT="$(cd "$(dirname "${BASH_SOURCE[0]}")/.." && pwd)"
 cd $VROOT
-fail=0
-run() { # patch id
-	out=$(WIDTH=160 tools/try_mutant.sh "$1" "$2" "$SECS")
-	if echo "$out" | grep -q "^VIOLATION"; then echo "CAUGHT  $2  $1  $(echo "$out" | grep -c '^VIOLATION') classes"; else echo "MISSED  $2  $1"; echo "$out" | sed 's/^/        /'; fail=1; fi
+export VROOT SECS
+one() { # kind patch id
+	kind="$1"; p="$2"; id="$3"
+	out=$(WIDTH=160 tools/try_mutant.sh "$p" "$id" "$SECS")
+	if [ "$kind" = benign ]; then
+		if echo "$out" | grep -q "^OK"; then echo "QUIET   $id  $p"; else echo "ALARM   $id  $p"; echo "$out" | sed 's/^/        /'; fi
+	else
+		if echo "$out" | grep -q "^VIOLATION"; then echo "CAUGHT  $id  $p  $(echo "$out" | grep -c '^VIOLATION') classes"; else echo "MISSED  $id  $p"; echo "$out" | sed 's/^/        /'; fi
+	fi
 }
-for p in mutants/*.patch; do
-	id=$(basename $p | cut -c1-3 | tr a-z A-Z)
-	run $VROOT/$p $id
-done
-for d in seeded/*/; do
-	id=$(python3 -c "import json,sys; m=json.load(open('$d/meta.json')); print(m.get('check', m['property']))")
-	if grep -q '"caught_by": "NOT CAUGHT' $d/meta.json; then echo "SKIPPED $id  $d (recorded as outside the property)"; continue; fi
-	run $VROOT/${d}patch.diff $id
-done
-# refactorings that keep the property: must stay quiet
-for p in benign/*.patch; do
-	id=$(basename $p | cut -c1-3 | tr a-z A-Z)
-	out=$(WIDTH=160 tools/try_mutant.sh $VROOT/$p $id "$SECS")
-	if echo "$out" | grep -q "^OK"; then echo "QUIET   $id  $p"; else echo "ALARM   $id  $p"; echo "$out" | sed 's/^/        /'; fail=1; fi
-done
-exit $fail
+export -f one
+{
+	for p in mutants/*.patch; do
+		echo "mutant $VROOT/$p $(basename $p | cut -c1-3 | tr a-z A-Z)"
+	done
+	for d in seeded/*/; do
+		id=$(python3 -c "import json,sys; m=json.load(open('$d/meta.json')); print(m.get('check', m['property']))")
+		if grep -q '"caught_by": "NOT CAUGHT' $d/meta.json; then echo "SKIPPED $id  $d (recorded as outside the property)" >&2; continue; fi
+		echo "mutant $VROOT/${d}patch.diff $id"
+	done
+	for p in benign/*.patch; do
+		echo "benign $VROOT/$p $(basename $p | cut -c1-3 | tr a-z A-Z)"
+	done
+} | xargs -P "$JOBS" -L 1 bash -c 'one "$0" "$1" "$2"'
